@@ -129,6 +129,33 @@ func runC09(p *an.Prog, r *an.Run, tier string) {
 			bad = append(bad, a.Field+" is written at "+p.Pos(a.In.Pos())+" without the matching write of "+other+" in the same critical section")
 		}
 	}
+	// when connect retires the previous connection's reverse entry, it does so before writing the new pair (or only when
+	// the previous connection differs from the calling one): deleting afterwards removes the entry just written when a
+	// host sends connect twice on one connection, and CloseRemote then has nothing to unregister
+	for _, a := range acc {
+		if a.Kind != "delete" || a.Fn != conn || a.Field != "remoteNodeLookup" {
+			continue
+		}
+		okOrder := true
+		for _, b := range acc {
+			if b.Kind == "update" && b.Field == "remoteNodeLookup" && b.Fn == conn {
+				if !an.Dominates(a.In, b.In) {
+					okOrder = false
+				}
+			}
+		}
+		if !okOrder {
+			differs := false
+			for _, cr := range ctrlRels(a.In.Block()) {
+				if cr.Op == token.NEQ && !isNilValue(cr.L) && !isNilValue(cr.R) && (cr.L == a.Key || cr.R == a.Key) {
+					differs = true
+				}
+			}
+			if !differs {
+				bad = append(bad, "connect deletes the previous connection's reverse entry at "+p.Pos(a.In.Pos())+" after writing the new pair, without checking that it is a different connection: a repeated connect on one connection erases its own reverse entry")
+			}
+		}
+	}
 	r.Check(len(bad) == 0, "paired-writes", "VipnodePool registry", conn.Pos(), "forward and reverse entries are written together", "%s", strings.Join(bad, "; "))
 
 	// ---- stale-close / close-removes
